@@ -232,3 +232,80 @@ Theorem every_registry_has_a_serving_provider :
     SolverEndToEnd.serves O reg (reg_provider O reg).
 Proof. intros VS Vr O reg. exact (reg_provider_serves O reg). Qed.
 Print Assumptions every_registry_has_a_serving_provider.
+
+(* The capstone with every per-run guarantee of the development (Proofs/SolverEndToEndFull.v): provider in, verdict out.
+   Against every provider that serves a finite registry the generating model makes at most Events0 calls; its call trace
+   is a recording of the provider and obeys every clause of the protocol (C12); it returns either a solution (C01) without
+   duplicates, made of offered versions, containing only packages needed by the root (C04), or NoSolution when no solution
+   exists (C02) together with a derivation tree that is a checkable proof (C03). *)
+From Coq Require Import List NArith ZArith Bool.
+From PG Require Import Model.VS Model.Term Model.Heap Model.Solver Model.Registry Proofs.VSLaws Proofs.SolverSem
+  Proofs.AssocProofs Proofs.SolverStore Proofs.SolverShared Proofs.SolverProto2 Proofs.SolverNoPanic1 Proofs.SolverNoPanic
+  Proofs.SolverTerm1 Proofs.SolverTerm4 Proofs.SolverTerm Proofs.SolverQueue2 Proofs.SolverSound
+  Proofs.SolverTrace Proofs.SolverDet Proofs.HeapProofs Proofs.SolverDetQueue Proofs.SolverDetInst Proofs.SolverGen
+  Proofs.SolverProtocol Proofs.SolverTree Proofs.SolverReach Proofs.SolverEndToEnd Proofs.SolverEndToEndFull.
+Import ListNotations.
+Local Open Scope nat_scope.
+Section C05_full.
+  Context {VS Vr : Type} (O : VSOps VS Vr) (L : VSLawful O) (veqb : Vr -> Vr -> bool).
+  Context (reg : registry (VS := VS) (Vr := Vr)) (r : pkg) (rv : Vr).
+  Notation event := (@event VS Vr).
+  Notation tprovider := (@tprovider VS Vr).
+  Variable R : Ranked O L.
+  Variable pkgs : list pkg.
+
+  Theorem model_total_correctness_full :
+    singleton_atomic O L -> reg_wf O L reg ->
+    (forall a b, veqb a b = true -> a = b) -> (forall v, veqb v v = true) -> (forall s, vs_eqb O s s = true) ->
+    finite_registry O L reg r rv R pkgs ->
+    forall (pg : tprovider) fuel res (tr : list event),
+      serves O reg pg -> Fuel1 O L R pkgs <= fuel ->
+      resolve_g O veqb pg fuel r rv = (res, tr) ->
+      (* C05: bounded number of calls *)
+      length tr <= Events0 O L R pkgs
+      (* the trace is a recording of the provider *)
+      /\ generated_by (to_provider pg) [] tr
+      (* C12: the protocol; every clause of Props/Properties_C12.v *)
+      /\ (   (* protocol_consumed_trace_partial: the structural scanner accepts the trace *)
+             shape veqb (P0 (Vr := Vr)) [] tr = true
+             (* protocol_first_cancel *)
+          /\ match tr with [] => True | e :: _ => exists ok, e = EvCancel ok end
+             (* protocol_after_choose *)
+          /\ (forall (pre : list event) p s a (rest : list event), tr = pre ++ EvChoose p s a :: rest ->
+                match rest with
+                | [] => True
+                | EvCancel _ :: _ => True
+                | EvDeps p' v' _ :: rest' =>
+                    (exists v, a = CSome v /\ N.eqb p p' && veqb v v' = true) /\
+                    match rest' with [] => True | EvCancel _ :: _ => True | _ => False end
+                | _ => False
+                end)
+             (* protocol_deps_preceded *)
+          /\ (forall (pre : list event) p' v' a rest, tr = pre ++ EvDeps p' v' a :: rest ->
+                exists pre0 p s v, pre = pre0 ++ [EvChoose p s (CSome v)] /\ N.eqb p p' && veqb v v' = true)
+             (* protocol_deps_once *)
+          /\ NoDup (deps_of tr)
+             (* protocol_choose_set_is_last_prioritized *)
+          /\ (forall i p s a, nth_error tr i = Some (EvChoose p s a) -> exists z, last_prio_at tr i p s z)
+             (* protocol_choose_set_nonempty *)
+          /\ (forall i p s a, nth_error tr i = Some (EvChoose p s a) ->
+                s <> vs_empty O /\ vs_eqb O s (vs_empty O) = false)
+             (* protocol_first_query_is_root *)
+          /\ (forall i p s a, nth_error tr i = Some (EvChoose p s a) ->
+                (forall j e, j < i -> nth_error tr j = Some e -> is_choose e = false) ->
+                p = r /\ s = vs_singleton O rv /\ i = 2 /\
+                exists z, firstn i tr = [EvCancel true; EvPrioritize r (vs_singleton O rv) z]))
+      /\ ((exists sol, fst (fst (fst res)) = OSolution sol
+             (* C01 *)
+             /\ Solution O reg r rv (fun p => get p sol)
+             /\ NoDup (map fst sol) /\ (forall p v, In (p, v) sol -> In v (reg_versions reg p))
+             (* C04 *)
+             /\ (forall p v, In (p, v) sol -> reach reg r sol p))
+          \/ (exists t, fst (fst (fst res)) = ONoSolution t
+             (* C02 *)
+             /\ (forall a, ~ Solution O reg r rv a)
+             (* C03 *)
+             /\ tree_ok O reg r rv t /\ top_forbids_root O r rv t)).
+  Proof. exact (resolve_g_total_correctness_full O L veqb reg r rv R pkgs). Qed.
+End C05_full.
+Print Assumptions model_total_correctness_full.
